@@ -194,6 +194,85 @@ def drawpix_correspondence(ctx, binp):
     return len(v)
 
 
+def _f32(x):
+    import struct
+    try:
+        return struct.unpack('f', struct.pack('f', x))[0]
+    except OverflowError:
+        return x
+
+
+def _lbox(xywh):
+    x, y, w, h = xywh
+    return "(mkbox %s %s %s %s)" % (vlib.qstr(x), vlib.qstr(y), vlib.qstr(_f32(x + w)), vlib.qstr(_f32(y + h)))
+
+
+def _finite(v):
+    return all(isinstance(x, (int, float)) and abs(x) < 1e30 for x in v)
+
+
+def ltree_coq(n):
+    """usvg node (harness dump) -> Model/LayerTree.v ltree term, or None when a number is not finite"""
+    if n['t'] != 'g':
+        return "(LLeaf %s)" % _lbox(n['sbbox']) if _finite(n['sbbox']) else None
+    ch = [ltree_coq(c) for c in n['children']]
+    if any(c is None for c in ch) or not _finite(n['ts']) or any(not _finite(f['rect']) for f in n.get('filters', [])):
+        return None
+    return "(LGroup (from_row %s) [%s] [%s])" % (" ".join(vlib.qstr(v) for v in n['ts']),
+                                                  "; ".join(_lbox(f['rect']) for f in n.get('filters', [])), "; ".join(ch))
+
+
+def lbbox_correspondence(ctx, binp, files):
+    """Second pass: usvg's reported Group::layer_bounding_box of every group of the sampled corpus files against `layer_of`
+    (Model/LayerTree.v) of the tree rebuilt from the leaves' stroke boxes, the group transforms and the filter regions -
+    compared inside Coq (relative tolerance 1e-4: usvg rounds every transformed box to f32, the model is exact)."""
+    outs = ctx.rvh_batch(binp, 'dump', ["-\t@%s" % f for f in files], per_item_timeout=20)
+    rows, where = [], []
+    deep = 0
+    for f, o in zip(files, outs):
+        try:
+            tree = json.loads(o)
+        except (TypeError, ValueError):
+            continue
+        if 'root' not in tree:
+            continue
+
+        def rec(n, depth, path):
+            nonlocal deep
+            if n['t'] != 'g':
+                return
+            if (n['children'] or n.get('filters')) and _finite(n['lbbox']):
+                t = ltree_coq(n)
+                if t is not None and len(t) < 60000:
+                    rows.append("(%s, %s)" % (t, _lbox(n['lbbox'])))
+                    where.append((f, path, n.get('id', ''), n['lbbox']))
+                    has_sub = any(c['t'] == 'g' and (c['children'] or c.get('filters')) for c in n['children'])
+                    deep += 1 if has_sub else 0
+                    ctx.note_case("lbbox/%s/%s" % (f, path), nontrivial=has_sub or bool(n.get('filters')))
+            for i, c in enumerate(n['children']):
+                rec(c, depth + 1, "%s/%d" % (path, i))
+        rec(tree['root'], 0, '')
+    if not rows:
+        ctx.violation("c14-lbbox: no group could be rebuilt from the usvg dump", dict(op='dump', files=files[:3]), found_input=False)
+        return dict(groups=0)
+    bad = []
+    for k in range(0, len(rows), 400):
+        body = ("Local Open Scope Q_scope.\nDefinition cases : list (ltree * box) := [\n%s\n].\n"
+                "Eval vm_compute in (bad_indices (fun c => chk_layer_of (1 # 10000) (fst c) (snd c)) cases).\n" % ";\n".join(rows[k:k + 400]))
+        rcode, out = ctx.coq_eval('lbbox_%d' % k, body, ['Model.Base', 'Model.Corr', 'Model.BBox', 'Model.LayerTree'], timeout=300)
+        v = ctx.parse_N_list(out) if rcode == 0 else None
+        if v is None:
+            ctx.violation("c14-lbbox: the model could not be evaluated: %s" % out[-400:], dict(op='dump'), found_input=False)
+            return dict(groups=len(rows))
+        bad += [k + i for i in v]
+    for i in bad[:3]:
+        f, path, gid, lb = where[i]
+        ctx.violation("C14_layer_box_contains_painted tie (c14-lbbox): usvg reports layer_bounding_box %s for group %r (child path %s) of %s, "
+                      "the source-locked model computes a different box from the leaves (layer_of)" % (lb, gid, path or '/', f),
+                      dict(op='dump', doc='@' + f, group_path=path, group_id=gid, reported=lb, model_term=rows[i][:1500]))
+    return dict(groups=len(rows), with_subgroups=deep, bad=len(bad))
+
+
 def run(ctx):
     rng = ctx.rng
     quick = ctx.tier == 'quick'
@@ -202,7 +281,8 @@ def run(ctx):
         "tiny-skia draw_pixmap (SourceOver, opacity 1, Nearest) hand-modelled as Blend8.over_u8; compared on all 65 536 (s, sa) pairs "
         "for 2 (thorough: 6) destination bytes per run (c14-drawpix); the layer paint literal of render_group is checked by tools/gen_filterpos.py",
         "tiny_skia_path::Rect::to_int_rect, IntRect::from_xywh/from_ltrb hand-modelled (Model/RenderPrims.v, Model/Base.v), tied by the layer-trace correspondence",
-        "usvg layer_bounding_box (the content box handed to render_group) is an input of the model (C12's subject)",
+        "usvg layer_bounding_box: computed from the leaves by Model/LayerTree.v layer_of = C12's model of calculate_bounding_boxes (Model/BBox.v, "
+        "locked by Gen/BBoxTables.v), tied by the c14-lbbox correspondence; the leaves' stroke boxes themselves are C12's subject",
     ]
     ctx.assumptions = [
         "C14_layer_invisible*: exact rational source-over; the 8-bit layer composite is within 1/2 level of it (C14_draw_pixmap_rounds_over) "
@@ -214,7 +294,7 @@ def run(ctx):
     res = ctx.coq_props()
     proof_ok = res['ok'] and not broken
     # the model files the correspondence evaluates (also when a proof file no longer compiles)
-    ctx.coq_build(['Model/Corr.v', 'Model/Render.v', 'Model/Compose.v', 'Model/Compose8.v'])
+    ctx.coq_build(['Model/Corr.v', 'Model/Render.v', 'Model/Compose.v', 'Model/Compose8.v', 'Model/LayerTree.v'])
 
     binp, blog = ctx.harness('release')
     if binp is None:
@@ -251,6 +331,11 @@ def run(ctx):
             ctx.violation("C14_quantisation_two_attained: the real draw_pixmap gives direct %s, layered %s where the model says 178 / 180"
                           % (rq['direct'], rq['layered']), rrep)
     ctx.log("c14-drawpix: %d exhaustive 256x256 tables agree with over_u8" % ntab)
+
+    # ------------------------------------------------------------------ K: layer_bounding_box from the leaves (second pass)
+    lb = lbbox_correspondence(ctx, binp, rng.sample(files, 250 if quick else len(files)))
+    ctx.cov['lbbox'] = lb
+    ctx.log("c14-lbbox: %s" % lb)
 
     # ------------------------------------------------------------------ K: layer-trace correspondence
     nfiles = 500 if quick else len(files)
